@@ -55,7 +55,7 @@ def ca(name="vf test CA") -> CA:
     return _cas[name]
 
 
-def make_cert(kind="ec", cn="localhost", serial=None, with_bc=True, issuer=None, sans=()):
+def make_cert(kind="ec", cn="localhost", serial=None, with_bc=True, issuer=None, sans=(), validity="current"):
     """Return (cert_der, key_pem).  issuer: a CA -> a leaf signed by it (SAN = cn + sans, DNS names or IP addresses)."""
     if issuer is not None:
         import ipaddress
@@ -91,14 +91,17 @@ def make_cert(kind="ec", cn="localhost", serial=None, with_bc=True, issuer=None,
         raise ValueError(kind)
     name = x509.Name([x509.NameAttribute(NameOID.COMMON_NAME, cn)])
     now = datetime.datetime.now(datetime.timezone.utc)
+    # validity: "current" | "expired" (ended a month ago) | "not-yet" (starts in a month) | "ends-today" (a minute ago)
+    nvb, nva = {"current": (-1, 365), "expired": (-400, -30), "not-yet": (30, 400), "ends-today": (-30, 0)}[validity]
+    end = now + datetime.timedelta(days=nva) - (datetime.timedelta(minutes=1) if validity == "ends-today" else datetime.timedelta(0))
     b = (
         x509.CertificateBuilder()
         .subject_name(name)
         .issuer_name(name)
         .public_key(key.public_key())
         .serial_number(serial or x509.random_serial_number())
-        .not_valid_before(now - datetime.timedelta(days=1))
-        .not_valid_after(now + datetime.timedelta(days=365))
+        .not_valid_before(now + datetime.timedelta(days=nvb))
+        .not_valid_after(end)
         .add_extension(x509.SubjectAlternativeName([x509.DNSName(cn)]), critical=False)
     )
     if with_bc:
@@ -153,8 +156,8 @@ class Identity:
 
     _n = 0
 
-    def __init__(self, kind="ec", cn="localhost", tamper=None, serial=None, extra_chain=None, issuer=None, sans=()):
-        der, key_pem = make_cert(kind, cn, serial=serial, issuer=issuer, sans=sans)
+    def __init__(self, kind="ec", cn="localhost", tamper=None, serial=None, extra_chain=None, issuer=None, sans=(), validity="current"):
+        der, key_pem = make_cert(kind, cn, serial=serial, issuer=issuer, sans=sans, validity=validity)
         self.kind = kind + (("-" + tamper) if tamper else "")
         if tamper == "bool":
             der = tamper_bool(der)
@@ -180,11 +183,11 @@ class Identity:
 _cache = {}
 
 
-def identity(name: str, kind="ec", cn="localhost", tamper=None, serial=None, extra_chain=None, issuer=None, sans=()) -> Identity:
+def identity(name: str, kind="ec", cn="localhost", tamper=None, serial=None, extra_chain=None, issuer=None, sans=(), validity="current") -> Identity:
     """Process-wide cache keyed by name."""
-    k = (name, kind, cn, tamper, serial, tuple(extra_chain or ()), id(issuer) if issuer else None, tuple(sans))
+    k = (name, kind, cn, tamper, serial, tuple(extra_chain or ()), id(issuer) if issuer else None, tuple(sans), validity)
     if k not in _cache:
-        _cache[k] = Identity(kind, cn, tamper, serial=serial, extra_chain=extra_chain, issuer=issuer, sans=sans)
+        _cache[k] = Identity(kind, cn, tamper, serial=serial, extra_chain=extra_chain, issuer=issuer, sans=sans, validity=validity)
     return _cache[k]
 
 
